@@ -20,6 +20,8 @@ ASSUMPTIONS = ["truncation bounds are chosen strictly between samples (on-sample
                "quick: the tail runs one (strategy, n, rule) per state, rotating over all 24 combinations; thorough: all"]
 ANCHORS = {"weaver.py": [(64, 79), (273, 276), (510, 514), (580, 582), (753, 756), (778, 781), (807, 809), (835, 837),
                          (866, 869), (898, 901), (943, 948), (984, 988)]}
+FORMS_HARNESSES = "all"
+FORMS_WIDTH = {"domain-histories": 7, "missing-last-sample-cut-off-first": 5}
 EXPLANATION = "exhaustive exploration of operation histories on the live object against a functional model"
 
 TAILS = [(st, n, rule) for st in RC.STRATS for n in (2, 5) for rule in ("trapezoid", "rectangle")]
